@@ -39,8 +39,6 @@ NOT_DECIDED = [
     "TRUSTED); onlypositive='z' with ndim=2 and non-bool/str options are not specified by the documentation and not checked",
     "sum rule N S = sum_a N_a S_aa + 2 sum_{a<b} sqrt(N_a N_b) S_ab on the returned (rounded, |q|-averaged) numbers: proved only as the "
     "per-frame identity and induction-step lemmas on the spec terms (holds before rounding by the modes+normalisation clauses)",
-    "sign of the group mean of the diagonal columns (needs 'sum of non-negative terms' over a symbolic group): proved per vector, "
-    "the induction step is a lemma",
     "AssertionError of sq.__init__ when particle number or box change between frames (the symbolic trajectory has them constant)",
 ]
 TRUSTED = [
@@ -53,6 +51,9 @@ TRUSTED = [
     "loop rule of pyvc/loops.py: joined body branches (if/elif routing by type) and numeric accumulators promoted to arrays by the first "
     "iteration are summarised as sums, checked by loop-init (after the first iteration) and loop-step obligations",
     "the object invariant established by sq.__init__ (own unit) is the methods' precondition",
+    "sign of the returned diagonal / total columns: proved as induction-step obligations on the real terms (frames: raw_k >= 0 -> raw_{k+1} >= 0; "
+    "vectors of a group: num_k >= 0, rv_k >= 0 -> num_{k+1} >= 0) and the final step mean = num/den >= 0; trusted: the induction principle "
+    "over k, and den >= 1 (every key returned by groupby().mean() is the key of at least one row: part of the assumed groupby contract)",
     "choosewavevector: math.modf(math.sqrt(k))[0] == 0  <=>  PSQ(k) ('k is a perfect square') for an integer k >= 0 (pyvc/libext/C04.py; a theorem "
     "over the reals, for floats the assumption that the correctly rounded root of a non-square below 2**52 is not an integer)",
     "choosewavevector: the ghost enumeration S of the finite set D = {p in [-h,h)^d : PSQ(p.p)} in lexicographic order with its inverse "
@@ -205,6 +206,8 @@ class Method(Unit):
         inp["g"] = ctx.int("g")
         inp["m"] = ctx.int("m")
         inp["s0"] = ctx.int("s0")
+        inp["kf"] = ctx.int("kf")
+        inp["kv"] = ctx.int("kv")
         return [o], {}, inp
 
     def clause_names(self, case):
@@ -212,7 +215,8 @@ class Method(Unit):
         for name, ab in columns(self.K):
             names += [f"{name}:modes", f"{name}:normalisation", f"{name}:rounded", f"{name}:group-mean"]
             if ab is None or ab[0] == ab[1]:
-                names.append(f"{name}:per-vector-value>=0")
+                names += [f"{name}:per-vector-value>=0", f"{name}:raw>=0:induction-step(frames)", f"{name}:returned>=0:induction-step(vectors)",
+                          f"{name}:returned>=0"]
         return names
 
     def ensures(self, ctx, case, inp, out):
@@ -263,6 +267,8 @@ class Method(Unit):
             num = Sum(0, M, lambda t_: sv.ite(sv.cmp("==", keys((t_,)), kg), gb["values"][name]((t_,)), 0))
             den = Sum(0, M, lambda t_: sv.ite(sv.cmp("==", keys((t_,)), kg), 1, 0))
             yield f"{name}:group-mean", sv.implies(ing, sv.cmp("==", c[name].get((g,)), sv.div(num, den))), {"ring_only": True}
+            if ab is None or ab[0] == ab[1]:
+                yield from self.sign_goals(inp, name, ab, gb, kg, num, den, c[name].get((g,)), ing, inm)
         # files
         writes = [e for e in out.state.trace if e[0] == "to_csv"]
         wq = [e for e in writes if e[1] == "out_qvectors.csv"]
@@ -289,6 +295,28 @@ class Method(Unit):
                 yield "qvectors-file=per-vector-values", sv.implies(inm, sv.and_(*eqs)), {"ring_only": True}
             else:
                 yield "qvectors-file=per-vector-values", False
+
+    def sign_goals(self, inp, name, ab, gb, kg, num, den, returned, ing, inm):
+        """diagonal and total columns are non-negative ON THE RETURNED NUMBERS, by two inductions stated as obligations on the real terms:
+        (1) frames: raw_k(m) = sum_{s<k} |rho_a(s,m)|^2 >= 0  -- base raw_0 = 0 (empty sum), step raw_k >= 0 -> raw_{k+1} >= 0; with the
+            modes clause (the code's sum is raw_T(m)) and the per-vector clause (raw >= 0 -> round6(v) >= 0) every value that enters
+            the |q|-average is >= 0;
+        (2) vectors: num_k = sum_{t<k} [key_t = key_g] rv_t >= 0  -- base num_0 = 0, step num_k >= 0, rv_k >= 0 -> num_{k+1} >= 0;
+        (3) the returned mean num_M / den is >= 0 for den >= 1 (every returned group has a member: assumed groupby contract).
+        The induction principle over k is trusted (TRUSTED)."""
+        sp, m, T, M, kf, kv = inp["sp"], inp["m"], inp["T"], inp["M"], inp["kf"], inp["kv"]
+        keys, vals = gb["keys"], gb["values"][name]
+        rk, rk1 = sp.raw(ab, m, t=kf), sp.raw(ab, m, t=sv.add(kf, 1))
+        yield f"{name}:raw>=0:induction-step(frames)", \
+            sv.implies(sv.and_(inm, sv.cmp(">=", kf, 0), sv.cmp("<", kf, T), sv.cmp(">=", rk, 0)), sv.cmp(">=", rk1, 0)), {"solver_opts": {"ext": False}}
+
+        def numk(k):
+            return Sum(0, k, lambda t_: sv.ite(sv.cmp("==", keys((t_,)), kg), vals((t_,)), 0))
+        yield f"{name}:returned>=0:induction-step(vectors)", \
+            sv.implies(sv.and_(ing, sv.cmp(">=", kv, 0), sv.cmp("<", kv, M), sv.cmp(">=", numk(kv), 0), sv.cmp(">=", vals((kv,)), 0)),
+                       sv.cmp(">=", numk(sv.add(kv, 1)), 0)), {"solver_opts": {"ext": False}}
+        gm, _ = sv.generalize(sv.implies(sv.and_(ing, sv.cmp(">=", num, 0), sv.cmp(">=", den, 1)), sv.cmp(">=", returned, 0)), [num, den], "nd")
+        yield f"{name}:returned>=0", gm
 
     def modes_goals(self, inp, ab, raw):
         """raw (the Σ over frames accumulated by the code, at vector m) == sum_s Re[rho_a conj rho_b], in three small steps:
